@@ -497,10 +497,11 @@ def wire_methods(prog):
 _CACHE = {}
 
 
-def evaluate(prog, fn):
-    """-> FragDomain after interpreting the public method `fn` with symbolic parameters."""
+def evaluate(prog, fn, bind=None):
+    """-> FragDomain after interpreting the public method `fn` with symbolic parameters (`bind`: parameters given a
+    concrete value instead, e.g. flags=Const(0))."""
     cache = prog.__dict__.setdefault("_wire_cache", {})
-    key = fn.qualname
+    key = fn.qualname if not bind else (fn.qualname, tuple(sorted((k, str(v)) for k, v in bind.items())))
     if key in cache:
         return cache[key]
     ex = exchange_names(prog)
@@ -515,6 +516,7 @@ def evaluate(prog, fn):
             env[p.name] = TOP
         else:
             env[p.name] = P(p.name)
+    env.update(bind or {})
     outs = Interp(dom, fn.node, prog).run(Env(env))
     dom.outs = outs
     cache[key] = dom
